@@ -14,13 +14,13 @@ LEVEL = "exploration"
 META = {
     "engine": "model-monitor",
     "technique": "runtime monitor: documentSymbol and workspace/symbol answers compared with the block structure recorded by the program generator (gfortran-validated programs, random spacing / case / END spellings, nested constructs with decoys)",
-    "text": "Programs built from nested units, procedures with CONTAINS nesting, derived types with components and bindings, generic interfaces and bodies of DO / DO WHILE / named DO / IF-ELSE IF / SELECT CASE / BLOCK / ASSOCIATE constructs with keyword decoys in strings and comments are rendered with random indentation, keyword case and END spellings; every required outline entry must appear exactly once with admissible kind, container and the opening/END lines; workspace/symbol must satisfy required <= result <= allowed, contain the query case-insensitively and be sorted. Sampled program shapes; all substrings (len 1-4) of sampled names as queries. The model writes glued/double-blank END TYPE and END INTERFACE, WHERE/FORALL, SELECT TYPE and arrays named like keywords.",
+    "text": "Programs built from nested units, procedures with CONTAINS nesting, derived types with components and bindings, generic interfaces and bodies of DO / DO WHILE / named DO / labelled DO ... CONTINUE (also two nested loops sharing the terminal label, in half of the workspaces) / IF-ELSE IF / SELECT CASE / BLOCK / ASSOCIATE constructs with keyword decoys in strings and comments are rendered with random indentation, keyword case and END spellings; every required outline entry must appear exactly once with admissible kind, container and the opening/END lines; workspace/symbol must satisfy required <= result <= allowed, contain the query case-insensitively and be sorted. Sampled program shapes; all substrings (len 1-4) of sampled names as queries. The model writes glued/double-blank END TYPE and END INTERFACE, WHERE/FORALL, SELECT TYPE and arrays named like keywords.",
     "note": "trusted: the generator's line bookkeeping; kind families tolerate benign re-mapping (procedure {12,6}, type {5,23}, interface {11}, component {13,8,7}, binding {6,12}); extra outline entries are allowed unless they duplicate a required one",
 }
 RULE = ("generated workspaces x style variants; per file the documentSymbol list vs required nodes (unit, procedures/types/interfaces directly in a unit, "
         "components and bindings of types); workspace/symbol queries = substrings of names in random case, empty string, non-matching strings; "
         "evaluations = outline entries and query results compared; distinct = (workspace, file, node) and (workspace, query)")
-ASSUME = ["identifiers are never keywords", "programs accepted by gfortran"]
+ASSUME = ["identifiers are never keywords", "programs accepted by gfortran (-std=f2018; -std=gnu for the workspaces with labelled DO loops)"]
 
 FAMILY = {"module": {2}, "program": {2}, "procedure": {12, 6}, "type": {5, 23}, "interface": {11}, "component": {13, 8, 7}, "binding": {6, 12}}
 
